@@ -337,7 +337,20 @@ def run_anim_case(case, env, res, tmpdir, state):
     set_terminal(env, 60, 30, *case["cell"])
     state["n"] += 1
     path = os.path.join(tmpdir, "c03a-%d.%s" % (state["n"], case["fmt"].lower()))
-    if case.get("disposal") is not None:
+    if case.get("apng_blend") is not None:
+        # an APNG of cut-outs (fully transparent around an opaque block that moves); the
+        # frames are stored with the given blend operations, nothing is disposed of
+        sw, sh = case["src"]
+        frames = []
+        for i in range(case["frames"]):
+            fr = Image.new("RGBA", (sw, sh), (0, 0, 0, 0))
+            x0 = (i * max(1, sw // case["frames"])) % sw
+            for y in range(sh // 4, max(sh // 4 + 1, 3 * sh // 4)):
+                for x in range(x0, min(sw, x0 + max(1, sw // 3))):
+                    fr.putpixel((x, y), ((255, 0, 0, 255), (0, 255, 0, 255), (0, 0, 255, 255))[(i + x + y) % 3])
+            frames.append(fr)
+        frames[0].save(path, "PNG", save_all=True, append_images=frames[1:], blend=case["apng_blend"], disposal=0, duration=100, loop=0)
+    elif case.get("disposal") is not None:
         # a GIF whose frames are cut-outs: palette index 0 is transparent, every frame has
         # its opaque block elsewhere and is disposed of as given before the next one
         sw, sh = case["src"]
@@ -385,7 +398,7 @@ def run_anim_case(case, env, res, tmpdir, state):
                         src_im.seek(k)
                         got_im.seek(k)
                         if src_im.convert("RGBA").tobytes() != got_im.convert("RGBA").tobytes():
-                            errs.append(("anim-frame-pixels", "frame %d of the re-encoded %s animation differs from the source's (disposal %r)" % (k, case["fmt"], case.get("disposal"))))
+                            errs.append(("anim-frame-pixels", "frame %d of the re-encoded %s animation differs from the source's (disposal %r, blend %r)" % (k, case["fmt"], case.get("disposal"), case.get("apng_blend"))))
                             break
                     res.count("frames of re-encoded native animations compared", case["frames"])
             elif data != file_bytes:
@@ -513,6 +526,8 @@ def gen_sweep(persona):
                         for alpha in ("#", ""):
                             j += 1
                             yield dict(kind="still", style=style, cell=[4, 8], size=[3, 2], method=method, src=[12, 16], mode="RGB", alpha=alpha, source=source, file_fmt=fmt, frames=4, visits=visits, render_visits=j % 3 != 0, img_seed=7000 + j)
+    for blend in ([0, 0, 0], [0, 0, 1], [0, 1, 0], [1, 1, 1]):
+        yield dict(kind="anim", cell=[4, 8], size=[3, 2], src=[12, 8], frames=3, fmt="PNG", source="memory", apng_blend=blend, img_seed=sum(blend) + 40)
     for frames in (2, 3, 4):
         yield dict(kind="anim", cell=[4, 8], size=[3, 2], src=[12, 8], frames=frames, fmt="GIF", source="memory", img_seed=frames * 7)
         for disposal in (0, 1, 2, 3):
